@@ -324,8 +324,8 @@ impl<E: Marshal> Marshal for &[E] {
             if E::valid_slice(ctx.byteorder) {
                 debug_assert_eq!(alignment, std::mem::size_of::<E>());
                 let len = alignment * self.len();
-                assert!(len <= u32::MAX as usize);
-                write_u32(len as u32, ctx.byteorder, ctx.buf);
+                let len_u32 = crate::wire::util::check_marshalled_array_len(len)?;
+                write_u32(len_u32, ctx.byteorder, ctx.buf);
                 ctx.align_to(alignment);
                 let ptr = self.as_ptr().cast::<u8>();
                 let slice = std::slice::from_raw_parts(ptr, len);
@@ -350,10 +350,11 @@ impl<E: Marshal> Marshal for &[E] {
         for p in self.iter() {
             p.marshal(ctx)?;
         }
-        let size_of_content = ctx.buf.len() - size_before;
+        let size_of_content =
+            crate::wire::util::check_marshalled_array_len(ctx.buf.len() - size_before)?;
         crate::wire::util::insert_u32(
             ctx.byteorder,
-            size_of_content as u32,
+            size_of_content,
             &mut ctx.buf[size_pos..size_pos + 4],
         );
 
@@ -442,10 +443,11 @@ impl<K: Marshal, V: Marshal> Marshal for std::collections::HashMap<K, V> {
             p.0.marshal(ctx)?;
             p.1.marshal(ctx)?;
         }
-        let size_of_content = ctx.buf.len() - size_before;
+        let size_of_content =
+            crate::wire::util::check_marshalled_array_len(ctx.buf.len() - size_before)?;
         crate::wire::util::insert_u32(
             ctx.byteorder,
-            size_of_content as u32,
+            size_of_content,
             &mut ctx.buf[size_pos..size_pos + 4],
         );
 
